@@ -2,39 +2,43 @@ use std::collections::HashSet;
 
 use solang_parser::pt::{self, Loc, SourceUnit};
 
-use crate::analyzer::utils;
+use crate::analyzer::ast::{self, Target};
 
 pub fn private_constant_optimization(source_unit: SourceUnit) -> HashSet<Loc> {
     let mut optimization_locations: HashSet<Loc> = HashSet::new();
 
-    let storage_variables = utils::get_32_byte_storage_variables(source_unit.clone(), false, true);
+    let contract_definition_nodes =
+        ast::extract_target_from_node(Target::ContractDefinition, source_unit.into());
 
-    for (_, variable_data) in storage_variables {
-        let (option_variable_attributes, loc) = variable_data;
+    for contract_definition_node in contract_definition_nodes {
+        if let Some(pt::SourceUnitPart::ContractDefinition(contract_definition)) =
+            contract_definition_node.source_unit_part()
+        {
+            //Every state variable of the contract, whatever its type
+            for part in contract_definition.parts {
+                if let pt::ContractPart::VariableDefinition(variable_definition) = part {
+                    let mut is_constant = false;
+                    let mut is_private = false;
 
-        if option_variable_attributes.is_some() {
-            let variable_attributes = option_variable_attributes.unwrap();
+                    for variable_attribute in &variable_definition.attrs {
+                        match variable_attribute {
+                            pt::VariableAttribute::Constant(_) => {
+                                is_constant = true;
+                            }
 
-            let mut is_constant = false;
-            let mut is_private = false;
+                            pt::VariableAttribute::Visibility(visibility) => match visibility {
+                                pt::Visibility::Private(_) => is_private = true,
+                                _ => {}
+                            },
 
-            for variable_attribute in variable_attributes {
-                match variable_attribute {
-                    pt::VariableAttribute::Constant(_) => {
-                        is_constant = true;
+                            _ => {}
+                        }
                     }
 
-                    pt::VariableAttribute::Visibility(visibility) => match visibility {
-                        pt::Visibility::Private(_) => is_private = true,
-                        _ => {}
-                    },
-
-                    _ => {}
+                    if is_constant && !is_private {
+                        optimization_locations.insert(variable_definition.loc);
+                    }
                 }
-            }
-
-            if is_constant && !is_private {
-                optimization_locations.insert(loc);
             }
         }
     }
